@@ -4,7 +4,7 @@ import core, gen, gen_units as G, canon
 from core import hx, unhx
 
 LEAN_MODULE = 'QM.Props.C17Sites'
-THEOREMS = ['Pth.C17_clean_eq_spec', 'Pth.C17_clean_normal', 'Pth.C17_resolve', 'Pth.C17_absolute', 'Pth.C17_no_cwd', 'Pth.C17_specifier', 'Pth.C17_specifier_kept', 'Cv.C17_storage_source_call_site', 'Cv.C17_storage_source_other', 'Cv.C17_yaml_call_site', 'Cv.C17_absFromUnit_eq', 'Cv.C17_url_prefix', 'Cv.C17_build_custom_anchored']
+THEOREMS = ['Pth.C17_clean_eq_spec', 'Pth.C17_clean_normal', 'Pth.C17_resolve', 'Pth.C17_absolute', 'Pth.C17_no_cwd', 'Pth.C17_specifier', 'Pth.C17_specifier_kept', 'Cv.C17_storage_source_call_site', 'Cv.C17_storage_source_other', 'Cv.C17_yaml_call_site', 'Cv.C17_yaml_specifier_kept', 'Cv.C17_absFromUnit_specifier', 'Cv.C17_absFromUnit_eq', 'Cv.C17_url_prefix', 'Cv.C17_build_custom_anchored']
 ASSUMPTIONS = [
     'Pth.components models std::path::Path::components on Unix (third-party behaviour, modelled from its documentation); Pth.cleaned / absoluteFrom / startsWithSpecifier are hand-written models of path_buf_ext.rs; tied by exhaustive correspondence over component lists with all separator decorations',
     'Pth.Spec.clean states Go filepath.Clean semantics for rooted paths (what upstream Quadlet uses)',
